@@ -41,8 +41,8 @@ func TestMain(m *testing.M) {
 
 type Case struct {
 	Text     pbt.Txt `json:"text"`
-	Expect   string `json:"expect,omitempty"`
-	ExpectNC string `json:"expect_nc,omitempty"`
+	Expect   string  `json:"expect,omitempty"`
+	ExpectNC string  `json:"expect_nc,omitempty"`
 }
 
 func check(c Case) (rt.Result, error) { return rt.RoundTrip(string(c.Text), c.Expect, c.ExpectNC) }
@@ -237,7 +237,9 @@ func TestFunctionInspect(t *testing.T) {
 // is decided by what its text starts with ({ would open a block) and how loosely it binds.
 func TestLambdaBodies(t *testing.T) {
 	bases := []func() *gen.Node{
-		func() *gen.Node { return gen.Map(gen.Str("inc"), gen.Lambda([]string{"n"}, false, gen.Infix("+", gen.Id("n"), gen.IntLit("1")))) },
+		func() *gen.Node {
+			return gen.Map(gen.Str("inc"), gen.Lambda([]string{"n"}, false, gen.Infix("+", gen.Id("n"), gen.IntLit("1"))))
+		},
 		func() *gen.Node { return gen.Map() },
 		func() *gen.Node { return gen.Map(gen.Str("a"), gen.IntLit("1"), gen.Str("b"), gen.IntLit("2")) },
 		func() *gen.Node { return gen.Array(gen.IntLit("1"), gen.Id("a")) },
@@ -245,7 +247,9 @@ func TestLambdaBodies(t *testing.T) {
 		func() *gen.Node { return gen.IntLit("1") },
 		func() *gen.Node { return gen.Str("s") },
 		func() *gen.Node { return gen.Lambda([]string{"x"}, false, gen.Id("x")) },
-		func() *gen.Node { return gen.IfElse(gen.Id("a"), []*gen.Node{gen.IntLit("1")}, []*gen.Node{gen.IntLit("2")}) },
+		func() *gen.Node {
+			return gen.IfElse(gen.Id("a"), []*gen.Node{gen.IntLit("1")}, []*gen.Node{gen.IntLit("2")})
+		},
 		func() *gen.Node { return gen.Prefix("-", gen.Id("a")) },
 		func() *gen.Node { return gen.Prefix("!", gen.Id("a")) },
 		func() *gen.Node { return gen.Func("", []string{"y"}, false, gen.Id("y")) },
